@@ -584,6 +584,11 @@ def grammar_pool(rng, n_random, usize=True, names="plain", max_nt=4, max_t=4, ma
             continue
         items = gen.random_grammar(rng, names=names, payload="usize" if usize else "mixed", derive=True, max_nt=max_nt, max_t=max_t, maxlen=maxlen, min_t=min_t)
         out.append((f"random{k}", items, gen.render(items), gen.to_oracle(items)))
+    # appended with a generator of their own, so that the grammars above are the same as before the family existed
+    prng = random.Random(f"shared-prefix-{n_random}")
+    for k in range(max(6, n_random // 16) if n_random else 0):
+        items = gen.shared_prefix_grammar(prng)
+        out.append((f"sharedprefix{k}", items, gen.render(items), gen.to_oracle(items)))
     # every seventh grammar with a terminal (sometimes a nonterminal) called after a sentinel of the generator (Eof …)
     srng = random.Random(f"sentinel-{n_random}")
     for j, (label, items, text, G) in enumerate(out):
